@@ -9,9 +9,11 @@
     result contain no [SUnk]; only exact runs are compared structurally with the implementation
     (the others are covered by the numeric oracle in the harness).
 
-    [is_zero] / [is_one] are the EXACT tests here (the theorems of C12 are about a simplifier
-    whose tests imply equality); the implementation's tolerant tests (|x| < 1e-10) differ on
-    literals within 1e-10 of 0 or 1: known finding tolerant-zero. *)
+    [is_zero] / [is_one] are the code's TOLERANT tests here ([x.norm() < 1e-10], strict, on the
+    norm; [is_one x = is_zero (x - 1)]), so that the thresholds themselves are compared with the
+    implementation.  The theorems of C12 are about tests that imply equality; the gap between the
+    two (a constant within 1e-10 of 0 or 1 is treated as 0 or 1) is the known finding
+    tolerant-zero, which the harness reproduces numerically. *)
 From Coq Require Import List NArith ZArith QArith Bool.
 From QV Require Import Model.Expr Model.ExactNum Model.Simplify.
 Import ListNotations.
@@ -26,8 +28,13 @@ Definition sv_op (o : infix_op) (a b : sv) : sv :=
   | SEx x, SEx y => sv_of_xc (x_infix o (Some x) (Some y))
   | _, _ => SUnk
   end.
-Definition sv_is_zero (a : sv) : bool := match a with SEx g => g_is_zero g | _ => false end.
-Definition sv_is_one (a : sv) : bool := match a with SEx g => g_eqb g (1, 0) | _ => false end.
+(** (1e-10)^2; [hypot(re, im) < 1e-10] iff [re^2 + im^2 < 1e-20] away from rounding at the boundary *)
+Definition tol_sq : Q := 1 # 100000000000000000000.
+Definition g_within_tol (re im : Q) : bool := negb (Qle_bool tol_sq (re * re + im * im)).
+Definition sv_is_zero (a : sv) : bool :=
+  match a with SEx g => g_within_tol (fst g) (snd g) | _ => false end.
+Definition sv_is_one (a : sv) : bool :=
+  match a with SEx g => g_within_tol (fst g - 1) (snd g) | _ => false end.
 Definition sv_eqb (a b : sv) : bool :=
   match a, b with
   | SEx x, SEx y => g_eqb x y
